@@ -101,7 +101,7 @@ row!(btreemap_u8, BTreeMap<u8, bool>, len = 4, unwind = 10,
     refenc: |v, r| { r.head(5, v.len() as u64); for (k, x) in v.iter() { r.uint(*k as u64); r.byte(if *x { 0xf5 } else { 0xf4 }) } }, eq: |a, b| a == b);
 
 #[cfg(feature = "std")]
-mod with_std {
+pub mod with_std {
     use super::*;
     use std::net::*;
     row!(ipv4, Ipv4Addr, len = 5, unwind = 10, fix0: 0x44,
